@@ -12,6 +12,10 @@ package c19
 // op lines (channels are named by the number of their LOCAL id `channel-<l>`):
 //   chan l r                          local channel-l is connected to the counterparty's channel-r
 //   seq l n                           the next send sequence of channel l becomes n (never decreases)
+//   toggle tok l                      governance toggles the conversion of the token's pair (real ToggleTokenConvert)
+//   pause                             governance flips the erc20 module's EnableErc20 parameter
+// the packet `sender` of a recv is a number: k < 100 a remote string; 10000+a the HEX address of local account a;
+// 20000+a its BECH32 address (a: users 1..4, 2001 the erc20 module account, 3000 the memo contract)
 //   migrate                           the transfer module's REAL MigrateDenomMetadata migration (metadata for every stored trace)
 //   meta l                            bank metadata exists for the aliased voucher of channel l (what the transfer
 //                                     module's InitGenesis / MigrateDenomMetadata write for every denom trace)
@@ -34,6 +38,7 @@ import (
 
 	sdkmath "cosmossdk.io/math"
 	sdk "github.com/cosmos/cosmos-sdk/types"
+	sdkaddress "github.com/cosmos/cosmos-sdk/types/address"
 	banktypes "github.com/cosmos/cosmos-sdk/x/bank/types"
 	ibctransferkeeper "github.com/cosmos/ibc-go/v8/modules/apps/transfer/keeper"
 	transfertypes "github.com/cosmos/ibc-go/v8/modules/apps/transfer/types"
@@ -67,6 +72,43 @@ const (
 )
 
 func remoteSender(k int) string { return fmt.Sprintf("cosmos1remotesender%d", k) }
+
+const (
+	idErc20Mod = 2001
+	idContract = 3000
+	payAmt     = 5
+)
+
+// localAddr: the local account a sender number names
+func (e *env) localAddr(id int) common.Address {
+	switch id {
+	case idErc20Mod:
+		return common.BytesToAddress(e.modAddr(erc20types.ModuleName))
+	case idContract:
+		return e.okC
+	}
+	return e.addr(id)
+}
+
+// senderString: what stands in the packet's `sender` field
+func (e *env) senderString(snd int) string {
+	switch {
+	case snd >= 20000:
+		return sdk.AccAddress(e.localAddr(snd - 20000).Bytes()).String()
+	case snd >= 10000:
+		return e.localAddr(snd - 10000).Hex()
+	}
+	return remoteSender(snd)
+}
+
+// hashSender: the SPECIFIED memo-call sender — last 20 bytes of address.Hash("<port>/<channel>", sender)
+func hashSender(channel, sender string) common.Address {
+	return common.BytesToAddress(sdkaddress.Hash(port+"/"+channel, []byte(sender)))
+}
+
+// localIds: every local account a packet may name or touch
+func (e *env) localIds() []int { return []int{1, 2, 3, 4, idErc20Mod, idContract} }
+
 
 // SLOAD(0)+1 -> SSTORE(0); CALLER -> SSTORE(1); STOP   /   REVERT
 var (
@@ -106,6 +148,7 @@ type env struct {
 	signers map[int]*helpers.Signer
 	addrs   map[int]common.Address
 	okC     common.Address
+	sink    common.Address
 	revC    common.Address
 	ercBase common.Address
 	ercNat  common.Address
@@ -341,6 +384,11 @@ func (e *env) callerLabel() string {
 	if a == (common.Address{}) {
 		return "-"
 	}
+	for _, id := range e.localIds() {
+		if e.localAddr(id) == a {
+			return fmt.Sprintf("L%d", id)
+		}
+	}
 	if l, ok := e.derived[a]; ok {
 		return l
 	}
@@ -394,11 +442,12 @@ func (e *env) setup(ls, cps []int) {
 	}
 	for n := range nums {
 		for k := 0; k < nSenders; k++ {
-			is := ibcmwtypes.IntermediateSender(port, fmt.Sprintf("channel-%d", n), remoteSender(k))
+			is := hashSender(fmt.Sprintf("channel-%d", n), remoteSender(k))
 			s.App.AccountKeeper.SetAccount(s.Ctx, s.App.AccountKeeper.NewAccountWithAddress(s.Ctx, is.Bytes()))
 			e.derived[is] = fmt.Sprintf("%d/%d", n, k)
 		}
 	}
+	e.sink = common.BytesToAddress([]byte("c19-memo-call-sink-x"))
 	e.okC = common.BytesToAddress([]byte("c19-ok-contract-xxxx"))
 	e.revC = common.BytesToAddress([]byte("c19-rev-contract-xxx"))
 	if err := s.App.EvmKeeper.CreateContractWithCode(s.Ctx, e.okC, codeCount); err != nil {
@@ -479,9 +528,61 @@ func (e *env) ercToken(tok string, ch *chanT) common.Address {
 	return common.Address{}
 }
 
+// pairDenom: the denomination whose token pair a token class uses ("" = none)
+func pairDenom(tok string, ch *chanT) string {
+	switch tok {
+	case "A":
+		return baseA
+	case "N":
+		return natD
+	case "V":
+		return ch.vV
+	}
+	return ""
+}
+
+// convertible: is ConvertCoin of that pair possible right now (module enabled, pair enabled)
+func (e *env) convertible(tok string, ch *chanT) bool {
+	if !e.s.App.Erc20Keeper.GetEnableErc20(e.s.Ctx) {
+		return false
+	}
+	pair, found := e.s.App.Erc20Keeper.GetTokenPair(e.s.Ctx, pairDenom(tok, ch))
+	return found && pair.Enabled
+}
+
+// toggle: governance's MsgToggleTokenConversion (the keeper function the message server calls)
+func (e *env) toggle(tok string, l int) {
+	op := fmt.Sprintf("toggle %s %d", tok, l)
+	d := pairDenom(tok, e.chans[l])
+	if d == "" {
+		e.out.Emit(op, "bad-op")
+		return
+	}
+	if _, err := e.s.App.Erc20Keeper.ToggleTokenConvert(e.s.Ctx, d); err != nil {
+		panic(err)
+	}
+	e.out.Emit(op, "ok")
+	e.out.Count("toggle:" + tok + fmt.Sprintf(":now-enabled=%v", e.convertible(tok, e.chans[l]) || !e.s.App.Erc20Keeper.GetEnableErc20(e.s.Ctx)))
+}
+
+// pause: governance's MsgUpdateParams flipping EnableErc20
+func (e *env) pause() {
+	params := e.s.App.Erc20Keeper.GetParams(e.s.Ctx)
+	params.EnableErc20 = !params.EnableErc20
+	if err := e.s.App.Erc20Keeper.SetParams(e.s.Ctx, &params); err != nil {
+		panic(err)
+	}
+	e.out.Emit("pause", "ok")
+	e.out.Count(fmt.Sprintf("pause:now-enabled=%v", params.EnableErc20))
+}
+
 func (e *env) fund(id int, tok string, l int, amt int64) {
 	s := e.s
 	a := e.addr(id)
+	if tok == "A" && !e.convertible("A", e.chans[l]) {
+		e.out.Emit(fmt.Sprintf("fund %d %s %d %d", id, tok, l, amt), "bad-op")
+		return
+	}
 	switch tok {
 	case "A":
 		coin := sdk.NewCoin(baseA, sdkmath.NewInt(amt))
@@ -497,6 +598,13 @@ func (e *env) fund(id int, tok string, l int, amt int64) {
 }
 
 func (e *env) memo(kind string) string {
+	mkv := func(to common.Address, v int64) string {
+		bz, err := e.s.App.AppCodec().MarshalInterfaceJSON(&ibcmwtypes.IbcCallEvmPacket{To: to.Hex(), Value: sdkmath.NewInt(v), Data: ""})
+		if err != nil {
+			panic(err)
+		}
+		return string(bz)
+	}
 	mk := func(to common.Address) string {
 		bz, err := e.s.App.AppCodec().MarshalInterfaceJSON(&ibcmwtypes.IbcCallEvmPacket{To: to.Hex(), Value: sdkmath.ZeroInt(), Data: ""})
 		if err != nil {
@@ -511,6 +619,8 @@ func (e *env) memo(kind string) string {
 		return mk(e.okC)
 	case "callrev":
 		return mk(e.revC)
+	case "callpay": // a plain value transfer: moves the CALLER's funds to the sink
+		return mkv(e.sink, payAmt)
 	}
 	return ""
 }
@@ -541,7 +651,25 @@ func (e *env) recv(l int, tok, rk string, to int, amt int64, memo string, snd in
 		pd = remoteX
 	}
 	den := bankDenom(tok, ch)
-	data := transfertypes.NewFungibleTokenPacketData(pd, strconv.FormatInt(amt, 10), remoteSender(snd), receiver, e.memo(memo))
+	sender := e.senderString(snd)
+	// the account the memo call runs as must exist (CallEVM reads its sequence); name the SPECIFIED derivations
+	for _, n := range []int{ch.r, ch.l} {
+		is := hashSender(fmt.Sprintf("channel-%d", n), sender)
+		if e.s.App.AccountKeeper.GetAccount(e.s.Ctx, is.Bytes()) == nil {
+			e.s.App.AccountKeeper.SetAccount(e.s.Ctx, e.s.App.AccountKeeper.NewAccountWithAddress(e.s.Ctx, is.Bytes()))
+		}
+		if _, ok := e.derived[is]; !ok {
+			e.derived[is] = fmt.Sprintf("%d/%d", n, snd)
+		}
+	}
+	if is := ibcmwtypes.IntermediateSender(port, ch.cp, sender); e.s.App.AccountKeeper.GetAccount(e.s.Ctx, is.Bytes()) == nil {
+		e.s.App.AccountKeeper.SetAccount(e.s.Ctx, e.s.App.AccountKeeper.NewAccountWithAddress(e.s.Ctx, is.Bytes()))
+	}
+	local0 := map[int]map[string]int64{}
+	for _, id := range e.localIds() {
+		local0[id] = e.holdings(e.localAddr(id))
+	}
+	data := transfertypes.NewFungibleTokenPacketData(pd, strconv.FormatInt(amt, 10), sender, receiver, e.memo(memo))
 	packet := channeltypes.NewPacket(data.GetBytes(), uint64(1+e.rng.Intn(1000)), port, ch.cp, port, ch.id, clienttypes.NewHeight(100, 100000), 0)
 	mod, _ := s.App.IBCKeeper.Router.GetRoute(transfertypes.ModuleName)
 	h0 := e.holdings(a)
@@ -609,6 +737,18 @@ func (e *env) recv(l int, tok, rk string, to int, amt int64, memo string, snd in
 	if !relFrame(rel0, e.relSet(), "", "") {
 		e.out.Violate("recv: an inbound packet changed the tracking records of outbound transfers")
 	}
+	// nobody who did not sign loses anything through an inbound packet: the only account an inbound packet debits is the
+	// channel's escrow account
+	for _, id := range e.localIds() {
+		dl, dls := delta(local0[id], e.holdings(e.localAddr(id)))
+		for k, v := range dl {
+			if v < 0 {
+				e.out.Violate(fmt.Sprintf("recv: an inbound packet lowered the holdings of local account %d, which signed nothing: %s by [%s] (packet sender field = %s form of local account, memo=%s)", id, k, dls,
+					map[bool]string{true: "bech32", false: map[bool]string{true: "hex", false: "no"}[snd >= 10000]}[snd >= 20000], memo))
+				break
+			}
+		}
+	}
 	if ackS == "ok" && memo == "callrev" {
 		e.out.Violate(fmt.Sprintf("recv: the memo call reverted but the packet was acknowledged successfully and its credit kept (%s)", class))
 	}
@@ -622,10 +762,13 @@ func (e *env) recv(l int, tok, rk string, to int, amt int64, memo string, snd in
 			e.callers[c] = map[string]bool{}
 		}
 		e.callers[c][fmt.Sprintf("%d/%d", l, snd)] = true
-		for id, la := range e.addrs {
-			if la == c {
-				e.out.Violate(fmt.Sprintf("memo call executed with the address of local account %d as sender", id))
+		for _, id := range e.localIds() {
+			if e.localAddr(id) == c {
+				e.out.Violate(fmt.Sprintf("memo call executed with the address of local account %d as sender (packet sender field = %s)", id, sender))
 			}
+		}
+		if acc := e.s.App.AccountKeeper.GetAccount(e.s.Ctx, c.Bytes()); acc != nil && acc.GetPubKey() != nil {
+			e.out.Violate("memo call executed as an account that has a public key (a key-derived local account)")
 		}
 		if len(e.callers[c]) > 1 {
 			var ks []string
@@ -804,6 +947,9 @@ func (e *env) settle(l int, seq uint64, mode string) {
 		case st.tok != "A" && e.bal(transfertypes.GetEscrowAddress(port, ch.id), den) < st.amt:
 			// a counterparty that returned more than it ever received emptied the escrow account: out of scope
 			e.out.Count("settle:stuck:escrow-drained-by-dishonest-counterparty")
+		case st.tok == "A" && !e.convertible("A", ch):
+			// conversion is switched off right now: the callback must fail so that IBC core keeps the packet for a retry
+			e.out.Count("settle:stuck:conversion-disabled-retry-later")
 		case st.tok == "A" && ch.meta:
 			e.violate("alias-metadata-refund", fmt.Sprintf("settle: refund callback fails, the transfer can never be refunded: aliased voucher has bank metadata (%s): %s", class, firstWords(res)))
 		default:
@@ -883,6 +1029,10 @@ func (e *env) exec(line string) {
 	switch {
 	case len(f) == 1 && f[0] == "migrate":
 		e.migrate()
+	case len(f) == 1 && f[0] == "pause":
+		e.pause()
+	case len(f) == 3 && f[0] == "toggle":
+		e.toggle(f[1], n(2))
 	case len(f) == 2 && f[0] == "meta":
 		e.meta(n(1))
 	case len(f) == 3 && f[0] == "seq":
@@ -967,7 +1117,10 @@ func (e *env) avail(l int, tok string) int64 {
 
 func (e *env) generate(nops int) {
 	rng, out := e.rng, e.out
-	memos := []string{"none", "junk", "callok", "callrev", "callok"}
+	memos := []string{"none", "junk", "callok", "callrev", "callok", "callpay"}
+	// what stands in the packet's sender field: mostly a remote string; else the hex / bech32 address of a funded local
+	// account, of the erc20 module account, of a contract
+	senders := []int{0, 1, 0, 1, 0, 1, 10001, 10002, 10003, 10004, 20001, 20002, 10000 + idErc20Mod, 10000 + idContract, 20000 + idErc20Mod}
 	for from := 1; from <= 3; from++ {
 		e.fund(from, "A", e.order[rng.Intn(len(e.order))], int64(100+rng.Intn(900)))
 		e.fund(from, "A", e.order[rng.Intn(len(e.order))], int64(100+rng.Intn(900)))
@@ -1050,7 +1203,29 @@ func (e *env) generate(nops int) {
 					amt = avail
 				}
 			}
-			e.recv(l, tok, rk, 1+rng.Intn(4), amt, memos[rng.Intn(len(memos))], rng.Intn(nSenders))
+			e.recv(l, tok, rk, 1+rng.Intn(4), amt, memos[rng.Intn(len(memos))], senders[rng.Intn(len(senders))])
+		case r == 13:
+			// governance switches conversion off and, mostly soon, on again (state-aware)
+			var offTok string
+			offL := l
+			for _, ol := range e.order {
+				for _, tk := range []string{"A", "N", "V"} {
+					if pair, ok := e.s.App.Erc20Keeper.GetTokenPair(e.s.Ctx, pairDenom(tk, e.chans[ol])); ok && !pair.Enabled {
+						offTok, offL = tk, ol
+					}
+				}
+			}
+			paused := !e.s.App.Erc20Keeper.GetEnableErc20(e.s.Ctx)
+			switch {
+			case paused && rng.Intn(3) != 0:
+				e.pause()
+			case offTok != "" && rng.Intn(3) != 0:
+				e.toggle(offTok, offL)
+			case rng.Intn(6) == 0:
+				e.pause()
+			default:
+				e.toggle([]string{"A", "A", "A", "N", "V"}[rng.Intn(5)], l)
+			}
 		case r == 12 && !e.chans[l].meta && rng.Intn(3) == 0:
 			if rng.Intn(4) == 0 {
 				e.migrate()
@@ -1083,6 +1258,22 @@ func (e *env) generate(nops int) {
 			if rng.Intn(4) == 0 {
 				e.settle(l, seq, []string{"ok", "err", "timeout"}[rng.Intn(3)])
 			}
+		}
+	}
+	// the cause of every temporary failure goes away and the relayer retries: everything still in flight is settled
+	if !e.s.App.Erc20Keeper.GetEnableErc20(e.s.Ctx) {
+		e.pause()
+	}
+	for _, ol := range e.order {
+		for _, tk := range []string{"A", "N", "V"} {
+			if pair, ok := e.s.App.Erc20Keeper.GetTokenPair(e.s.Ctx, pairDenom(tk, e.chans[ol])); ok && !pair.Enabled {
+				e.toggle(tk, ol)
+			}
+		}
+	}
+	for _, x := range e.sents {
+		if x.done == "" && x.evm && x.tok == "A" {
+			e.settle(x.l, x.seq, []string{"err", "timeout", "ok"}[rng.Intn(3)])
 		}
 	}
 	e.finish()
